@@ -1,12 +1,24 @@
 //! vx_evo: see /verif/harness/AGENTS-GUIDE.md; one module per property, dispatched on the property id.
 
+mod c11;
+mod c14;
+mod c15;
+mod c42;
+mod tycol;
+
 use vcore::{machinery_error, Ctx};
 
 fn main() {
     let ctx = Ctx::from_args();
-    vcore::quiet_panics();
+    if !ctx.opts.contains_key("loud") {
+        vcore::quiet_panics();
+    }
     #[allow(clippy::match_single_binding)]
     let out: vcore::Outcome = match ctx.id.as_str() {
+        "C11" => c11::run(&ctx),
+        "C14" => c14::run(&ctx),
+        "C15" => c15::run(&ctx),
+        "C42" => c42::run(&ctx),
         other => machinery_error(&format!("vx_evo does not implement {other}")),
     };
     #[allow(unreachable_code)]
